@@ -248,6 +248,64 @@ class BodyInfo:
             return None
 
     def outcome_edges(self, site, *labels):
+        return self._through_bool(self._outcome_edges(site, *labels))
+
+    def _through_bool(self, edges):
+        """`matches!(x, V)` lowers to: switch discr -> {L = true} / {L = false} -> join -> switch L.
+        When every definition `L = v` is the direct, exclusive target of edges we found, the edges on
+        which the outcome is known are the `v` edges of the switch on L (path-exact), not the
+        discriminant edges (after which the join would re-merge both worlds)."""
+        if not edges:
+            return edges
+        out = list(edges)
+        eset = set(edges)
+        for e, defs in self.bool_phi_switches:
+            for v in (True, False):
+                dv = [blk for blk, val in defs if val == v]
+                if not dv:
+                    continue
+                # entry edges of every def block (looking back through empty single-predecessor hops)
+                mine = []
+                ok = True
+                for d in dv:
+                    cur = d
+                    for hop in range(3):
+                        ps = self.body.pred[cur]
+                        if all((p, cur) in eset for p in ps) and ps:
+                            mine += [(p, cur) for p in ps]
+                            break
+                        if len(ps) == 1 and not any(s["k"] == "assign" for s in self.body.stmts(ps[0])) and len(self.body.succs(ps[0])) == 1:
+                            cur = ps[0]
+                            continue
+                        ok = False
+                        break
+                    else:
+                        ok = False
+                if not ok or not mine:
+                    continue
+                if not all(self._flows_straight_to(d, e["block"]) for d in dv):
+                    continue    # an ordinary flag assigned here and tested much later
+                ed = self.edge(e, v)
+                if ed:
+                    out = [x for x in out if x not in mine] + [ed]
+        return out
+
+    def _flows_straight_to(self, d, target):
+        """block d reaches `target` through at most two unconditional, statement-free hops"""
+        body = self.body
+        cur = d
+        for hop in range(3):
+            ss = body.succs(cur)
+            if len(ss) != 1:
+                return False
+            if ss[0] == target:
+                return True
+            cur = ss[0]
+            if any(s["k"] == "assign" for s in body.stmts(cur)):
+                return False
+        return False
+
+    def _outcome_edges(self, site, *labels):
         """CFG edges taken when the result of `site` matches the chain of variant labels, e.g.
         ('Ready',), ('Ready', 'Some'), ('Ready', 'Err'), (True,), (False,).
         Returns list of edges (a, b); empty if no such test exists."""
